@@ -122,6 +122,8 @@ pub struct SeqProp {
     pub c12_ops: bool,
     /// C18: compaction filter oracle
     pub filter_oracle: Option<FilterSpec>,
+    /// C11: number of reopen cycles performed by the oracle before the superseding suffix (0 = off)
+    pub supersede_reopens: usize,
 }
 
 /// A deterministic compaction filter decided from the key, and the keyspaces it is assigned to.
@@ -199,6 +201,7 @@ impl SeqProp {
             keyspace_oracle: false,
             c12_ops: false,
             filter_oracle: None,
+            supersede_reopens: 0,
         }
     }
 }
@@ -218,8 +221,8 @@ impl Property for SeqProp {
             w.apply(op).map_err(|v| Violation::new("harness", format!("prefix op {op} failed: {}", v.detail)))?;
         }
         // the prefix must itself satisfy the oracle; otherwise it is reported by the pass that explores it
-        w.track_journals = self.journal_oracle;
-        if self.journal_oracle {
+        w.track_journals = self.journal_oracle || self.supersede_reopens > 0;
+        if w.track_journals {
             // journal bookkeeping must cover the prefix too: re-run it with tracking on
             drop(w);
             w = World::new_with_filter(fresh_dir_like(), self.cfg.clone(), self.filter.clone())?;
@@ -314,6 +317,9 @@ impl Property for SeqProp {
         }
         if let Some(spec) = self.filter_oracle {
             return self.check_filtered(w, &spec);
+        }
+        if self.supersede_reopens > 0 {
+            return self.check_supersede(w);
         }
         if self.judge_only_after_reopen && w.wit.reopened == 0 {
             // not this property's business; still compute digests when it agrees
@@ -434,6 +440,101 @@ fn fresh_dir_like() -> PathBuf {
 }
 
 impl SeqProp {
+    /// C11: reopen, then new writes must supersede everything recovered.
+    fn check_supersede(&self, w: &mut World) -> Result<Vec<u64>, Violation> {
+        use fjall::Readable;
+        let mut digests = vec![];
+        let mut foreign = 0u64;
+        for round in 0..self.supersede_reopens {
+            w.apply(&Op::Reopen).map_err(|v| Violation::new("reopen", v.detail))?;
+            // re-synchronise: fidelity of the reopen itself is C04's/C02's business
+            let kss: Vec<u8> = w.model.keys().copied().collect();
+            for ks in &kss {
+                let scanned = scan_ks(&w.ks[ks]).map_err(|e| Violation::new("op_error", e))?;
+                if scanned != w.model[ks] {
+                    foreign += 1;
+                    w.model.insert(*ks, scanned);
+                }
+            }
+            // seqno clause
+            let next = w.dbi().seqno();
+            for ks in &kss {
+                if let Some(hs) = w.ks[ks].tree.get_highest_seqno() {
+                    if next <= hs {
+                        return Err(Violation::new(
+                            "seqno.not_above_keyspace",
+                            format!("after reopen #{} the next seqno is {next} but keyspace {} holds seqno {hs}", round + 1, ksn(*ks)),
+                        ));
+                    }
+                }
+            }
+            let on_disk = journal_files(&w.dir);
+            for (j, recs) in &w.journal_records {
+                if on_disk.contains(j) {
+                    if let Some((ks, s)) = recs.iter().max_by_key(|r| r.1) {
+                        if next <= *s {
+                            return Err(Violation::new(
+                                "seqno.not_above_journal",
+                                format!("after reopen #{} the next seqno is {next} but {j} holds a record of {} with seqno {s}", round + 1, ksn(*ks)),
+                            ));
+                        }
+                    }
+                }
+            }
+            // a snapshot taken immediately after open shows exactly what the handles show
+            let snap = w.dbi().snapshot();
+            for ks in &kss {
+                let a = observe_view(&snap, &w.ks[ks], Probe::Lite);
+                let b = observe_ks(&w.ks[ks], Probe::Lite);
+                if a != b {
+                    return Err(Violation::new("snapshot_after_open", format!("keyspace {}: {}", ksn(*ks), a.diff(&b))));
+                }
+            }
+            drop(snap);
+            // supersede: overwrite every key, remove one; a new snapshot sees recovered data plus the new writes
+            for ks in &kss {
+                if !w.write_enabled(*ks) {
+                    continue;
+                }
+                for (k, v) in [(0u8, 1u8), (1, 0)] {
+                    w.apply(&Op::Ins { ks: *ks, k, v })?;
+                    let want = observe_model(&w.model[ks], Probe::Lite);
+                    let got = observe_ks(&w.ks[ks], Probe::Lite);
+                    if got != want {
+                        return Err(Violation::new("supersede.write", format!("keyspace {} after ins {}: {}", ksn(*ks), show_key(KEYS[k as usize]), got.diff(&want))));
+                    }
+                }
+                w.apply(&Op::Rem { ks: *ks, k: 2 })?;
+                let want = observe_model(&w.model[ks], Probe::Lite);
+                let got = observe_ks(&w.ks[ks], Probe::Lite);
+                if got != want {
+                    return Err(Violation::new("supersede.remove", format!("keyspace {} after rem b: {}", ksn(*ks), got.diff(&want))));
+                }
+                let snap = w.dbi().snapshot();
+                let sv = observe_view(&snap, &w.ks[ks], Probe::Lite);
+                if sv != want {
+                    return Err(Violation::new("supersede.snapshot", format!("keyspace {}: new snapshot {}", ksn(*ks), sv.diff(&want))));
+                }
+            }
+            // keyspace-level supersede: create one, delete one
+            if !w.model.contains_key(&2) {
+                w.apply(&Op::Create { ks: 2 })?;
+                w.apply(&Op::Ins { ks: 2, k: 0, v: 0 })?;
+            } else if w.model.len() > 1 {
+                w.apply(&Op::Delete { ks: 2 })?;
+            }
+        }
+        w.apply(&Op::Reopen).map_err(|v| Violation::new("reopen", v.detail))?;
+        let d = w.check_all(Probe::Lite).map_err(|v| Violation::new("supersede.after_final_reopen", v.detail))?;
+        let want: Vec<String> = w.model.keys().map(|k| ksn(*k).to_string()).collect();
+        if w.listed() != want {
+            return Err(Violation::new("supersede.keyspace_set", format!("{:?} expected {want:?}", w.listed())));
+        }
+        digests.extend(d);
+        digests.push(foreign);
+        Ok(digests)
+    }
+
     fn check_filtered_keys(&self, w: &mut World, spec: &FilterSpec) -> Result<(), Violation> {
         self.check_filtered_impl(w, spec, false).map(|_| ())
     }
@@ -615,6 +716,8 @@ pub fn prefix(name: &str) -> Vec<Op> {
             "step WorkerMessage:Flush",
             "step WorkerMessage:Flush",
         ]),
+        // the meta keyspace holds the highest seqnos: keyspaces created and deleted last, little user data
+        "meta_highest" => p(&["ins x.a=1", "create z", "delete z", "create z", "delete y"]),
         other => panic!("unknown prefix {other}"),
     }
 }
